@@ -102,3 +102,259 @@ func pmSummary(vs []string) string {
 }
 
 var _ = strings.TrimSpace
+
+// ---------------------------------------------------------------- parser model on observed Parse calls
+
+type pmObs struct {
+	Src      []byte
+	Keep     bool
+	Accepted bool
+	Dump     []dyntpl.VerifNode
+	How      string
+}
+
+var (
+	pmRecord bool   // record the Parse calls made through ParseReg / parseDump
+	pmHow    string // label of the stream that is running
+	pmLimit  = map[string]int{}
+	pmCount  = map[string]int{}
+	pmSeen   = map[string]bool{}
+	pmList   []pmObs
+	pmMu     sync.Mutex
+)
+
+func pmObserve(src []byte, keep bool, o Obs, dump []dyntpl.VerifNode) {
+	if !pmRecord || o.Panic != "" || o.Hang {
+		return
+	}
+	pmMu.Lock()
+	defer pmMu.Unlock()
+	if lim, ok := pmLimit[pmHow]; ok && pmCount[pmHow] >= lim {
+		return
+	}
+	k := fmt.Sprintf("%v|%s", keep, src)
+	if pmSeen[k] {
+		return
+	}
+	pmSeen[k] = true
+	pmCount[pmHow]++
+	pmList = append(pmList, pmObs{Src: append([]byte(nil), src...), Keep: keep, Accepted: o.Err == "", Dump: dump, How: pmHow})
+}
+
+// runParserModel evaluates Model/Parser.v (over the expressions regenerated from the source) on every
+// recorded source: an accepted source must give the dumped tree, a refused one must be refused.
+func runParserModel(o *Options, res *Result, prop string) error {
+	pmMu.Lock()
+	list := pmList
+	pmList = nil
+	pmMu.Unlock()
+	if len(list) == 0 {
+		return nil
+	}
+	gennow, err := prepareGenNow(o)
+	if err != nil {
+		return err
+	}
+	const per = 500
+	nsh := (len(list) + per - 1) / per
+	verdicts := make([][]string, nsh)
+	errs := make([]error, nsh)
+	sem := make(chan struct{}, 14)
+	var wg sync.WaitGroup
+	for sh := 0; sh < nsh; sh++ {
+		lo, hi := sh*per, (sh+1)*per
+		if hi > len(list) {
+			hi = len(list)
+		}
+		wg.Add(1)
+		go func(sh, lo, hi int) {
+			defer wg.Done()
+			sem <- struct{}{}
+			defer func() { <-sem }()
+			var sb strings.Builder
+			sb.WriteString("From Coq Require Import String.\nFrom DT Require Import Model.Bytes Model.Tree Model.VCase Model.Parser Model.PCase.\nFrom GenNow Require Import RegexTable ParseEnv.\nLocal Open Scope string_scope.\n")
+			var names []string
+			for i := lo; i < hi; i++ {
+				c := list[i]
+				if c.Accepted {
+					fmt.Fprintf(&sb, "Definition p%d := parsem_check now now_env %s %s %s.\n", i, gBool(c.Keep), gBytes(c.Src), gNodes(c.Dump))
+				} else {
+					fmt.Fprintf(&sb, "Definition p%d := parsem_refused now now_env %s %s.\n", i, gBool(c.Keep), gBytes(c.Src))
+				}
+				names = append(names, fmt.Sprintf("p%d", i))
+			}
+			fmt.Fprintf(&sb, "Definition pmv := Eval vm_compute in %s.\nPrint pmv.\n", gList(names))
+			dir := fmt.Sprintf("%s/pm%d", o.WorkDir, sh)
+			_ = os.MkdirAll(dir, 0o755)
+			file := dir + "/cases.v"
+			if err := os.WriteFile(file, []byte(sb.String()), 0o644); err != nil {
+				errs[sh] = err
+				return
+			}
+			out, err := coqcCmd("1500", "-Q", o.CoqDir, "DT", "-Q", gennow, "GenNow", "-Q", dir, "PM", file).CombinedOutput()
+			if err != nil {
+				errs[sh] = fmt.Errorf("coqc on %s: %v\n%s", file, err, tail(string(out), 1200))
+				return
+			}
+			k := strings.Index(string(out), "pmv =")
+			if k < 0 {
+				errs[sh] = fmt.Errorf("parser model: no result in coqc output for %s", file)
+				return
+			}
+			verdicts[sh] = rePMVerdict.FindAllString(string(out[k:]), -1)
+			if len(verdicts[sh]) != hi-lo {
+				errs[sh] = fmt.Errorf("parser model: %d verdicts for %d sources", len(verdicts[sh]), hi-lo)
+				return
+			}
+			_ = os.RemoveAll(dir)
+		}(sh, lo, hi)
+	}
+	wg.Wait()
+	for _, e := range errs {
+		if e != nil {
+			return e
+		}
+	}
+	for i, c := range list {
+		res.ModelEvals++
+		v := verdicts[i/per][i%per]
+		res.Hist(fmt.Sprintf("parser-model:%s:accepted=%v:%s", c.How, c.Accepted, v))
+		if v != "PMOk" {
+			res.Mismatches++
+			res.AddViolation(&Violation{Kind: "no-failing-input-found", Class: "parser-model", Lemma: "parser correspondence: Model/Parser.v over the regenerated expressions vs Parse + VerifTree",
+				What: fmt.Sprintf("the parser model (%s) and the real parser (accepted=%v) disagree on the source %q (keepFmt=%v, stream %s)", v, c.Accepted, c.Src, c.Keep, c.How),
+				Replay: map[string]any{"template": string(c.Src), "template_hex": hx(c.Src), "keep_fmt": c.Keep, "accepted": c.Accepted, "verdict": v, "stream": c.How, "seed": o.Seed, "tier": o.Tier}})
+		}
+	}
+	return nil
+}
+
+// ---------------------------------------------------------------- the matcher itself
+
+var reTagBody = regexp.MustCompile(`(?s)\{%(.*?)%\}`)
+
+// runRegexModel puts Model/Regex.v next to Go's regexp: every expression of the table on subjects cut
+// from the tags of the given sources (and mutations of them), FindSubmatchIndex against find_index.
+func runRegexModel(o *Options, res *Result, rng *RNG, sources [][]byte, perExpr int) error {
+	gennow, err := prepareGenNow(o)
+	if err != nil {
+		return err
+	}
+	rs, err := collectRegexes(repoDirOf())
+	if err != nil {
+		return err
+	}
+	var subjects [][]byte
+	seen := map[string]bool{}
+	for _, s := range sources {
+		for _, m := range reTagBody.FindAllSubmatch(s, -1) {
+			b := []byte(strings.Trim(string(m[1]), "{}% "))
+			if len(b) > 0 && len(b) < 120 && !seen[string(b)] {
+				seen[string(b)] = true
+				subjects = append(subjects, b)
+			}
+		}
+	}
+	if len(subjects) == 0 {
+		return nil
+	}
+	type rc struct {
+		name string
+		subj []byte
+		want []int
+	}
+	var cases []rc
+	for _, r := range rs {
+		known := false
+		for _, n := range modelRegexes {
+			known = known || n == r.Name
+		}
+		if !known {
+			continue
+		}
+		re, err := regexp.Compile(r.Expr)
+		if err != nil {
+			return err
+		}
+		// half of the subjects are ones the expression matches (as far as the pool has them)
+		nm, nn := 0, 0
+		for try := 0; try < 40*perExpr && nm+nn < perExpr; try++ {
+			s := subjects[rng.Intn(len(subjects))]
+			if try%3 == 2 {
+				s = mutate(rng, s)
+			}
+			if len(s) > 160 {
+				s = s[:160]
+			}
+			want := re.FindSubmatchIndex(s)
+			if want != nil && nm >= (perExpr+1)/2 || want == nil && nn >= perExpr/2 {
+				continue
+			}
+			if want != nil {
+				nm++
+			} else {
+				nn++
+			}
+			cases = append(cases, rc{r.Name, append([]byte(nil), s...), want})
+		}
+	}
+	var sb strings.Builder
+	sb.WriteString("From Coq Require Import String ZArith.\nFrom DT Require Import Model.Bytes Model.VCase Model.Regex Model.ParserRe Model.PCase.\nFrom GenNow Require Import RegexTable.\nLocal Open Scope string_scope.\n")
+	var names []string
+	for i, c := range cases {
+		want := "None"
+		if c.want != nil {
+			var zs []string
+			for _, z := range c.want {
+				zs = append(zs, gZ(int64(z)))
+			}
+			want = "(Some " + gList(zs) + ")"
+		}
+		fmt.Fprintf(&sb, "Definition r%d := re_check now_%s %s %s.\n", i, c.name, gBytes(c.subj), want)
+		names = append(names, fmt.Sprintf("r%d", i))
+	}
+	fmt.Fprintf(&sb, "Definition rev := Eval vm_compute in %s.\nPrint rev.\n", gList(names))
+	dir := o.WorkDir + "/remodel"
+	_ = os.MkdirAll(dir, 0o755)
+	file := dir + "/cases.v"
+	if err := os.WriteFile(file, []byte(sb.String()), 0o644); err != nil {
+		return err
+	}
+	out, err := coqcCmd("1500", "-Q", o.CoqDir, "DT", "-Q", gennow, "GenNow", "-Q", dir, "RM", file).CombinedOutput()
+	if err != nil {
+		return fmt.Errorf("coqc on %s: %v\n%s", file, err, tail(string(out), 1200))
+	}
+	k := strings.Index(string(out), "rev =")
+	if k < 0 {
+		return fmt.Errorf("regex model: no result in coqc output")
+	}
+	vs := regexp.MustCompile(`true|false`).FindAllString(string(out[k:]), -1)
+	if len(vs) != len(cases) {
+		return fmt.Errorf("regex model: %d verdicts for %d cases", len(vs), len(cases))
+	}
+	for i, c := range cases {
+		res.ModelEvals++
+		res.Hist(fmt.Sprintf("regex-model:match=%v:%s", c.want != nil, vs[i]))
+		if vs[i] != "true" {
+			res.Mismatches++
+			res.AddViolation(&Violation{Kind: "no-failing-input-found", Class: "regex-model", Lemma: "matcher correspondence: Model/Regex.v find_index vs regexp.FindSubmatchIndex on the expressions of the source",
+				What:   fmt.Sprintf("the matcher model and Go's regexp disagree on expression %s and subject %q (Go: %v)", c.name, c.subj, c.want),
+				Replay: map[string]any{"expression": c.name, "subject": string(c.subj), "subject_hex": hx(c.subj), "go_index": c.want}})
+		}
+	}
+	return nil
+}
+
+// parserModelBroken reports, as a violation without a failing input, that the parser model could not
+// be regenerated from the source (an expression the model reads is gone or has no counterpart in
+// Model/Regex.v, a repeated sub-expression may match the empty string, ...).
+func parserModelBroken(res *Result) bool {
+	if genNowErr == nil {
+		return false
+	}
+	res.Mismatches++
+	res.AddViolation(&Violation{Kind: "no-failing-input-found", Class: "parser-model-regen", Lemma: "regeneration of the parser model's expressions from the source (harness/regexgen.go, GenNow.TableOk.now_table_ok)",
+		What:   "the parser model can no longer be regenerated from the library's source: " + genNowErr.Error(),
+		Replay: map[string]any{"detail": genNowErr.Error()}})
+	return true
+}
